@@ -114,6 +114,15 @@ def run(v, tier, rng):
             for o2 in "*/%+-":
                 inner = ("add", ("mul", ("num", b), [(o2, ("num", c))]), []) if o2 in "*/%" else ("add", ("mul", ("num", b), []), [(o2, ("mul", ("num", c), []))])
                 must.append(("add", ("mul", ("num", a), [(o1, inner)]), []))
+    # literals written with leading zeros (and upper-case hexadecimal): still decimal / hexadecimal numbers
+    for z, dg in [(10, 3), (100, 4), (-17, 3), (8, 2), (19, 3), (64, 4), (0, 3), (7, 2), (777, 5)]:
+        lz = ("numz", z, dg)
+        must.append(("add", ("mul", lz, []), []))
+        must.append(("add", ("mul", lz, []), [("+", ("mul", ("num", 1), []))]))
+        must.append(("add", ("mul", lz, [("*", ("num", 2))]), []))
+        must.append(("add", ("mul", ("num", 5), [("%", lz)]), [("-", ("mul", lz, []))]))
+    for z, dg, up in [(16, 4, False), (255, 4, True), (0xabc, 3, True), (0x1f, 8, False)]:
+        must.append(("add", ("mul", ("hexz", z, dg, up), []), [("+", ("mul", ("num", 1), []))]))
     trees = must + trees
     progs = []
     for k, e in enumerate(trees):
@@ -124,7 +133,7 @@ def run(v, tier, rng):
     items = ["(%s, %s)" % (A.g_program(p), lib.obs_of(res[str(i)])) for i, (p, _, _) in enumerate(progs)]
     bad = lib.coq_eval("c06m", lib.header(), items)
     ok_idx = [i for i in range(len(progs)) if "died" not in res[str(i)] and not res[str(i)]["calls"][0].get("panic")
-              and not res[str(i)]["calls"][0]["diag"]]
+              and not res[str(i)]["calls"][0]["diag"] and not res[str(i)]["calls"][0].get("parse_err") and not res[str(i)]["calls"][0]["out"].startswith("!")]
     items2 = ["(%s, %s)" % (A.g_program(progs[i][0]), lib.gbytes(lib.hex2list(res[str(i)]["calls"][0]["out"]))) for i in ok_idx]
     codes = lib.coq_eval_values("c06s", lib.header("Check.C05", "check_c05_code"), items2)
     fails = [ok_idx[k] for k, c in enumerate(codes) if c == 1]
